@@ -6,7 +6,6 @@ import (
 	"fmt"
 	"reflect"
 	"runtime"
-	"runtime/debug"
 	"slices"
 	"strings"
 	"sync"
@@ -152,7 +151,6 @@ func TestVerifC22(t *testing.T) {
 	r := ev.Start(t, "C22")
 	defer r.Finish()
 	th := r.Thorough()
-	defer debug.SetGCPercent(debug.SetGCPercent(200))
 
 	if rf := r.Replay(); rf != nil {
 		var pl c22Replay
